@@ -221,7 +221,12 @@ def run(ctx):
     eng.so_path(VARIANT)
     eng.so_path("plain")
     done = 0
-    for job, r in pool.pmap_split(_work, len(_JOBS), 25, timeout=45):
+    for job, r in pool.pmap_split(_work, len(_JOBS), 25, timeout=45, single_timeout=15):
+        if isinstance(r, pool.Crash) and r.kind == "skipped":
+            ctx.exhaustive = False
+            if "re-run-of-failed-chunks-capped" not in ctx.caps:
+                ctx.caps.append("re-run-of-failed-chunks-capped")
+            continue
         if isinstance(r, pool.Crash):
             j = _JOBS[job[0]]
             if j[0] == "simple":
